@@ -274,46 +274,56 @@ func (s *sim) restart(n *node, bootCrash int) {
 			}
 			fmt.Fprintln(os.Stderr)
 		}
-		// a torn last WAL line (no trailing newline) that the restart's own replay then appends to?
-		img, _ := os.ReadFile(n.walFile())
-		torn := n.lastWalImageTorn && strings.Contains(bootErr.Error(), "DataCorruptionError")
+		// C33 speaks of a KILLED process: failures that need a power-loss image (bytes never fsynced are lost) are
+		// counted as anomalies, not violations; the same failure from a kill image is a violation.
+		corrupt := strings.Contains(bootErr.Error(), "DataCorruptionError")
 		n.shutdown()
 		synctest.Wait()
-		if torn {
-			oracle := "restart_failed_torn_wal_tail_kill_image"
-			if n.lastCrashPower {
-				oracle = "restart_failed_torn_wal_tail_power_loss_image"
-			}
-			before := len(s.r.Known)
-			s.fail("C33", oracle, "n%d cannot restart: its WAL image ends in a torn line (no newline; %s), catch-up replay appends new records right after the fragment and then reads fragment+record as one corrupt line: %v (store=%d state=%d app=%d)",
-				n.id, map[bool]string{true: "power loss: unsynced tail partly lost", false: "kill: bufio had flushed part of a record"}[n.lastCrashPower], bootErr, bsH, stH, app.LastBlockHeight)
-			if len(s.r.Known) > before || (s.only != nil && !s.only["C33"]) {
-				// known finding: do what the operator is told to do (repair = drop the fragment) and go on
-				if i := bytes.LastIndexByte(n.lastWalImage, '\n'); i >= 0 {
-					os.WriteFile(n.walFile(), n.lastWalImage[:i+1], 0o600)
+		switch {
+		case corrupt && (n.lastWalImageTorn || n.walFragment):
+			if (n.lastWalImageTorn && n.lastCrashPower) || (n.walFragment && n.walFragmentPower) {
+				// power loss left a torn last line; the catch-up replay of this (or of an earlier, successful) restart
+				// appended complete records right behind the fragment and fragment+record is read as one corrupt line
+				s.r.Probe("anomaly:restart_failed_torn_wal_tail_power_loss_image")
+				s.event("anomaly: n%d cannot restart, torn WAL tail left by a power-loss image: %v", n.id, bootErr)
+				if n.lastWalImageTorn {
+					// do what the operator is told to do (drop the fragment) and go on
+					if i := bytes.LastIndexByte(n.lastWalImage, '\n'); i >= 0 {
+						os.WriteFile(n.walFile(), n.lastWalImage[:i+1], 0o600)
+					}
+					n.lastWalImageTorn, n.walFragment = false, false
+					n.mach.Reboot()
+					for _, d := range []*simdb.Disk{n.blockDisk, n.stateDisk, n.appDisk} {
+						d.Crash(d.Unsynced())
+					}
+					s.event("operator repairs n%d's WAL (drops the torn fragment)", n.id)
+					s.schedule(s.now()+time.Millisecond, -1, func() { s.restart(n, 0) })
+					return
 				}
-				n.lastWalImageTorn = false
-				n.mach.Reboot()
-				for _, d := range []*simdb.Disk{n.blockDisk, n.stateDisk, n.appDisk} {
-					d.Crash(d.Unsynced())
-				}
-				s.event("operator repairs n%d's WAL (drops the torn fragment)", n.id)
-				s.schedule(s.now()+time.Millisecond, -1, func() { s.restart(n, 0) })
+				n.halted = true
 				return
 			}
-			_ = img
+			s.fail("C33", "restart_failed_torn_wal_tail_kill_image", "n%d cannot restart after being killed: its WAL ends in a torn line (bufio had flushed part of a record), catch-up replay appends new records right behind the fragment and reads fragment+record as one corrupt line: %v (store=%d state=%d app=%d)",
+				n.id, bootErr, bsH, stH, app.LastBlockHeight)
+			n.halted = true
+			return
+		case n.lastCrashPower && bsH == stH+1 && app.LastBlockHeight == bsH && strings.Contains(bootErr.Error(), "Could not find results for height"):
+			// power loss after the app's synced Commit; the ABCI responses of that height (unsynced Set in the state DB)
+			// were lost and the handshake's mock-app replay needs them. Impossible with a kill image.
+			s.r.Probe("anomaly:restart_failed_abci_responses_not_durable")
+			s.event("anomaly: n%d cannot restart, ABCI responses lost by a power-loss image: %v", n.id, bootErr)
 			n.halted = true
 			return
 		}
-		oracle := "restart_failed"
-		note := ""
-		if n.lastCrashPower && bsH == stH+1 && app.LastBlockHeight == bsH && strings.Contains(bootErr.Error(), "Could not find results for height") {
-			oracle = "restart_failed_abci_responses_not_durable"
-			note = " [power loss after the app's synced Commit but the ABCI responses of that height, written to the state DB with an unsynced Set, were lost: the mock-app replay of the handshake needs them]"
-		}
-		s.fail("C33", oracle, "n%d cannot restart after its crash (store=%d state=%d app=%d before the handshake, power-loss image=%v): %v%s", n.id, bsH, stH, app.LastBlockHeight, n.lastCrashPower, bootErr, note)
+		s.fail("C33", "restart_failed", "n%d cannot restart after its crash (store=%d state=%d app=%d before the handshake, power-loss image=%v): %v", n.id, bsH, stH, app.LastBlockHeight, n.lastCrashPower, bootErr)
 		n.halted = true
 		return
+	}
+	if n.lastWalImageTorn {
+		n.walFragment = true // the fragment stays in the file until the height is over
+		n.walFragmentPower = n.lastCrashPower
+		n.walFragmentH = n.cs.GetRoundState().Height
+		n.lastWalImageTorn = false
 	}
 	s.r.Probe("restart_ok")
 	// after the handshake: block store, state and application agree
